@@ -213,8 +213,9 @@ func (s *checkpoint) StartSchedule() {
 		return
 	}
 
+	s.running = true
+
 	go func() {
-		s.running = true
 		for s.running {
 			time.Sleep(s.config.Checkpoint.Interval)
 			if !s.running {
